@@ -138,13 +138,29 @@ def run(ctx: core.Ctx) -> None:
     run_slice(ctx, 'sim-25', slice_='sim', kinds=kinds3, budget=25, maxobjs=4, shardat=0, extras=False, expect_ops=C09_OPS,
               simulate=240 if quick else 3200)
     sample_histories(ctx, slice_='hist', kinds=['hist2'], budget=3, extras=False)
+    container_traces(ctx)
     ctx.exhaustive = False
     ctx.extra['exhaustive_slices'] = {'K-ops': 'depth 2 (prefix alphabet x full alphabet), span 3' + ('' if quick else ', spans 2 and 4'),
                                       'K-hist': 'depth 3, reduced alphabet' + ('' if quick else '; depth 4 on the two-variable container')}
     ctx.assumptions += ASSUMPTIONS
 
 
+def container_traces(ctx: core.Ctx) -> None:
+    """code -> spec: container operations of the repository's own tests and of a random driver, judged by ContainerTrace.tla."""
+    from .. import trace_container as tc
+    quick = ctx.tier == 'quick'
+    core.sany('ContainerTrace')
+    suite = tc.record_suite(ctx, ['tests/test_core.py', 'tests/test_extensions.py', 'tests/test_tools.py', '--deselect',
+                                  'tests/test_tools.py::TestPandasFunctions::test_dataframe_to_symbols'], 'suite-ops')
+    tc.validate(ctx, [suite], 'suite-ops')
+    files = tc.record_driver(ctx, [{'seed': ctx.seed * 100 + i, 'runs': 150 if quick else 1500} for i in range(core.NCPU)], 'driver-ops')
+    tc.validate(ctx, files, 'driver-ops')
+
+
 def replay(data) -> int:
+    if data.get('direction') == 'code->spec':
+        from .. import trace_container as tc
+        return tc.replay(data)
     payload = {'mode': 'records', 'records': [data['record']], 'variants': [data.get('variant', 'plain')], 'all_variants': True,
                'identity': bool(data.get('identity')), 'seed': 0}
     out = core.run_workers(WORKER, [payload])[0]
